@@ -80,7 +80,11 @@ func c16Schema() *tspace.Schema {
 			{Name: "ports", Key: str, Min: 0, Max: -1},
 		}}
 	}
-	return &tspace.Schema{Name: "VDB", Tables: []*tspace.Table{mk("T0"), mk("T1"), mk("T2"), mk("Marker")}}
+	// (no index on the marker table: a transaction applied twice must show as two rows,
+	// not be refused by the server)
+	marker := mk("Marker")
+	marker.Indexes = nil
+	return &tspace.Schema{Name: "VDB", Tables: []*tspace.Table{mk("T0"), mk("T1"), mk("T2"), marker}}
 }
 
 // c16Window, when set, is called by the client hook at every
